@@ -1,4 +1,6 @@
 """C13 - size limits enforced on every transport; traffic within them accepted; batcher exact."""
+import re
+
 from lib.vlib import gZ, gN, gbool, glist, gpair
 
 
@@ -43,13 +45,144 @@ def batcher_suite(ctx, vh):
                            "case": rows[i]}, no_input=True)
 
 
+LIM_HDR = "From SioV Require Import Eio.Limits Eio.LimitsCheck.\n"
+LIM_TR = {"post-cl": 0, "post-chunked": 1, "ws": 2, "poll": 3}
+LIM_THEOREMS = ["C13_server_never_buffers_beyond", "C13_over_limit_rejected_and_closed",
+                "C13_within_limit_accepted", "C13_disabled_accepts_all", "C13_announced_is_limit"]
+# finding classes: the same decidable classes as Eio/LimitsCheck.v:finding_class
+LIM_CLASS = {0: None, 1: "ws-client-read-limit", 2: "ws-server-disabled-keeps-library-default",
+             3: "post-undeclared-size-unbounded", 4: "ws-server-limit-value"}
+
+
+def lim_case_term(r):
+    obs = gpair(gZ(r["status"]), gZ(r["delivered"]), gbool(r["closed"]), gbool(r["alive"]), gZ(r["read"]))
+    return gpair(gZ(r["max"]), gbool(r["dis"]), gZ(r["ann"]), gN(0 if r["dir"] == "c2s" else 1),
+                 gN(LIM_TR[r["tr"]]), gZ(r["size"]), obs)
+
+
+def lim_class(r):
+    if r["tr"] == "ws":
+        if r["dir"] == "s2c":
+            return 1
+        return 2 if r["dis"] else 4
+    if r["dir"] == "c2s" and r["tr"] == "post-chunked":
+        return 3
+    return 0
+
+
+def lim_limit(r):
+    if r["dis"] or r["max"] < 0:
+        return None
+    return r["max"] or 1000000
+
+
+def lim_describe(r):
+    lim = lim_limit(r)
+    return ("%s %s (%s peer), %d bytes, MaxBufferSize=%d%s (limit %s, announced maxPayload %d): status %d, "
+            "delivered %d, closed %s, follow-up delivered %s, body bytes read %d"
+            % ({"c2s": "client->server", "s2c": "server->client"}[r["dir"]], r["tr"], r["peer"], r["size"], r["max"],
+               " DisableMaxBufferSize" if r["dis"] else "", lim if lim is not None else "none", r["ann"], r["status"],
+               r["delivered"], r["closed"], r["alive"], r["read"]))
+
+
+def limits_rows(ctx, vh, tier):
+    rows = ctx.vh_jsonl(vh, "limits", ["-tier", tier, "-seed", ctx.seed], timeout=600)
+    if rows is None:
+        return None, 0
+    good = [r for r in rows if not r.get("err")]
+    return good, len(rows) - len(good)
+
+
+def limits_suite(ctx, vh):
+    rows, env_failed = limits_rows(ctx, vh, "quick" if ctx.quick else "thorough")
+    if rows is None:
+        return
+    ctx.indeterminate += env_failed
+    total = len(rows) + env_failed
+    if env_failed * 10 > total or not rows:
+        ctx.violation("limits rig: %d of %d live cases could not be observed (dial/handshake failures)" % (env_failed, total),
+                      {"kind": "correspondence-broken", "suite": "limits/live"}, no_input=True)
+        if not rows:
+            return
+    terms = [lim_case_term(r) for r in rows]
+    for r in rows:
+        lim = lim_limit(r)
+        edges = [32768] + ([lim] if lim else [])
+        near = any(abs(r["size"] - e) <= 1 for e in edges) or r["delivered"] != r["size"]
+        ctx.count(1, nontrivial_key=("l", r["max"], r["dis"], r["dir"], r["tr"], r["peer"], r["size"]) if near else None,
+                  dist="limits:%s:%s:%s" % (r["dir"], r["tr"], "delivered" if r["delivered"] == r["size"] else "rejected"))
+    for r in (rows[0], rows[len(rows) // 2], rows[-1]):
+        ctx.sample({"suite": "limits/live", "case": r})
+    bad_oracle = ctx.coq_eval_cases("limits_oracle", LIM_HDR, terms, "oracle")
+    bad_agree = ctx.coq_eval_cases("limits_agree", LIM_HDR, terms, "agree")
+    ctx.obligation("correspondence:limits/live", "correspondence", not bad_agree,
+                   "%d live cases (%d not observed), %d disagree" % (len(rows), env_failed, len(bad_agree)))
+    ctx.obligation("oracle:limits/live", "oracle", not bad_oracle,
+                   "%d live cases, %d fail" % (len(rows), len(bad_oracle)))
+    if bad_oracle:
+        # the classes computed here and in Coq must be the same function
+        vals = ctx.coq_eval_values("limits_class", LIM_HDR, ["finding_class %s" % terms[i] for i in bad_oracle[:40]])
+        for i, v in zip(bad_oracle[:40], vals):
+            m = re.match(r"(\d+)%N", v.strip())
+            if not m or int(m.group(1)) != lim_class(rows[i]):
+                ctx.violation("finding class computed by the check (%s) and by Eio/LimitsCheck.v (%s) differ on %s"
+                              % (lim_class(rows[i]), v, rows[i]), {"kind": "correspondence-broken",
+                              "suite": "limits/finding-class", "case": rows[i]}, no_input=True)
+        seen = set()
+        for i in bad_oracle:
+            r = rows[i]
+            key = LIM_CLASS[lim_class(r)]
+            k2 = (key, r["max"], r["dis"], r["dir"], r["tr"])
+            if k2 in seen:
+                continue
+            seen.add(k2)
+            lim = lim_limit(r)
+            if r["dir"] == "c2s" and lim is not None and r["size"] > lim:
+                why = "an inbound message over MaxBufferSize was accepted or buffered, or the connection was not closed"
+            elif r["dir"] == "c2s" and lim is not None and r["read"] > lim + 1:
+                why = "the server read more than MaxBufferSize from a request body"
+            else:
+                why = "a message within the announced limit was not delivered or the connection did not survive it"
+            ctx.fail_or_known(key, "size limit: %s: %s" % (why, lim_describe(r)),
+                              {"kind": "failing-input", "engine": "limits", "case": r,
+                               "how": "vh limits: real eio server with this configuration; send one message of `size` "
+                                      "wire bytes over `tr` in direction `dir`, then a 3-byte follow-up"})
+    if bad_agree and not bad_oracle:
+        # widen: the thorough plan (more configurations, every size over the upgrade path)
+        wide_fail = []
+        if ctx.quick:
+            wrows, _ = limits_rows(ctx, vh, "thorough")
+            if wrows:
+                wterms = [lim_case_term(r) for r in wrows]
+                wide_fail = ctx.coq_eval_cases("limits_oracle_wide", LIM_HDR, wterms, "oracle")
+                for i in wide_fail[:3]:
+                    ctx.fail_or_known(LIM_CLASS[lim_class(wrows[i])], "size limit (widened search): " + lim_describe(wrows[i]),
+                                      {"kind": "failing-input", "engine": "limits", "case": wrows[i]})
+        if not wide_fail:
+            r = rows[bad_agree[0]]
+            ctx.violation("limit handling no longer decides as the model Eio/Limits.v does (theorems %s are about the model); "
+                          "first differing case: %s" % (", ".join(LIM_THEOREMS), lim_describe(r)),
+                          {"kind": "correspondence-broken", "suite": "limits/live", "theorems": LIM_THEOREMS,
+                           "case": r, "differing": len(bad_agree)}, no_input=True)
+
+
 def run(ctx):
-    ctx.rule = ("batcher: every vector of <=3 (quick) / <=5 (thorough) packets over 8 (binary,len) shapes x maxPayload 1..20 "
+    ctx.rule = ("limits: live rig, sizes {limit-1, limit, limit+1, 32767, 32768, 32769, 65536, 1e6+1 when unlimited} x "
+                "{POST+Content-Length, chunked POST, endless chunked POST, websocket, polling GET} x MaxBufferSize {100, default 1e6, "
+                "disabled, 40000; thorough: -1, 32768, 7} x both directions x {raw peer, real client, real client after upgrade}; "
+                "non-trivial = size within 1 of a limit in play (configured or the library's 32768) or not delivered "
+                "(distinct (config, direction, transport, peer, size)).  "
+                "batcher: every vector of <=3 (quick) / <=5 (thorough) packets over 8 (binary,len) shapes x maxPayload 1..20 "
                 "plus seeded random vectors; non-trivial = the batcher split the vector (distinct (max,vector))")
     ctx.trusted = ["Coq 8.16.1 kernel + vm_compute", "hand-written model Eio/Batcher.v tied by kernel-evaluated correspondence",
-                   "harness cmd/vh batch + hook engine.io/client_socket_verif.go"]
-    ctx.proofs(modules=["Eio/BatcherCheck"])
+                   "harness cmd/vh batch + hook engine.io/client_socket_verif.go",
+                   "hand-written model Eio/Limits.v (decisions + the two library limit readers as relations) tied by the live rig cmd/vh limits",
+                   "net/http and nhooyr.io/websocket behave as their limit readers are modelled (validated on every live case)"]
+    ctx.assumptions = ["sizes are wire bytes (POST body, WebSocket message); a negative MaxBufferSize means no limit",
+                       "webtransport limits are covered by C11 (limited reader), not here"]
+    ctx.proofs(modules=["Eio/BatcherCheck", "Eio/LimitsCheck"])
     vh = ctx.go_build()
     if vh is None:
         return
     batcher_suite(ctx, vh)
+    limits_suite(ctx, vh)
